@@ -24,7 +24,7 @@ pub struct Scenario {
     pub limits: usize, // 0 wide, 1 narrower window, 2 wrapping on J4/J6, 3 non-wrapping but reaching beyond +-pi (J1 in 0..270 deg)
     pub step: f64,
     pub max_try: usize,
-    pub pair: usize, // 0 the standard start/goal, 1 a start/goal pair hugging the lower J1 limit of limit set 3
+    pub pair: usize, // 0 the standard start/goal, 1 a pair hugging the lower J1 limit of limit set 3, 2 a pair differing in all six joints
 }
 
 pub const START: Joints = [0.0, 0.3, 0.3, 0.0, 0.5, 0.0];
@@ -32,10 +32,18 @@ pub const GOAL: Joints = [1.2, 0.3, 0.3, 0.0, 0.5, 0.0];
 
 impl Scenario {
     pub fn start(&self) -> Joints {
-        if self.pair == 1 { [0.02, 0.3, 0.3, 0.0, 0.5, 0.0] } else { START }
+        match self.pair {
+            1 => [0.02, 0.3, 0.3, 0.0, 0.5, 0.0],
+            2 => [0.5, 0.8, 0.4, 0.3, -0.6, 0.2],
+            _ => START,
+        }
     }
     pub fn goal(&self) -> Joints {
-        if self.pair == 1 { [0.02, 0.6, 0.3, 0.0, 0.5, 0.0] } else { GOAL }
+        match self.pair {
+            1 => [0.02, 0.6, 0.3, 0.0, 0.5, 0.0],
+            2 => [-0.7, -0.4, 1.0, -0.5, 0.9, -0.3],
+            _ => GOAL,
+        }
     }
 }
 
@@ -76,10 +84,10 @@ pub fn scenario_cell(s: &Scenario) -> CellDesc {
 }
 
 /// The sample alphabet, simplest first.
-pub fn alphabet(k: usize) -> Joints {
+pub fn alphabet(s: &Scenario, k: usize) -> Joints {
     match k {
-        0 => GOAL,
-        1 => START,
+        0 => s.goal(),
+        1 => s.start(),
         2 => [0.6, 0.3, 0.3, 0.0, 0.5, 0.0],   // into the pillar
         3 => [0.6, -0.3, -0.2, 0.0, 0.5, 0.0], // arm raised: passes behind / above the pillar
         4 => [1.4, 1.0, 1.0, 0.9, 1.4, 0.9],   // a far corner
@@ -118,6 +126,7 @@ pub fn execute(s: &Scenario, robot: &rs_opw_kinematics::kinematics_with_shape::K
     let planner = RRTPlanner { step_size_joint_space: s.step, max_try: s.max_try, debug: false };
     let stop = Arc::new(AtomicBool::new(false));
     let seq_owned: Vec<usize> = seq.to_vec();
+    let s_owned = s.clone();
     let lim2 = *lim;
     let stop2 = stop.clone();
     let draws = Arc::new(AtomicUsize::new(0));
@@ -132,7 +141,7 @@ pub fn execute(s: &Scenario, robot: &rs_opw_kinematics::kinematics_with_shape::K
         if joint == 0 && cancel_at == Some(sample) {
             stop2.store(true, Ordering::SeqCst);
         }
-        let a = alphabet(*seq_owned.get(sample).unwrap_or(&0));
+        let a = alphabet(&s_owned, *seq_owned.get(sample).unwrap_or(&0));
         raw_for(lim2.from[joint], lim2.to[joint], a[joint])
     }));
     let r = catch_unwind(AssertUnwindSafe(|| planner.plan_rrt(&s.start(), &s.goal(), robot, &stop)));
@@ -362,6 +371,9 @@ pub fn scenarios(thorough: bool) -> Vec<(Scenario, usize, bool)> {
                     if limits == 3 && layout == 0 && max_try <= 3 {
                         v.push((Scenario { layout, limits, step, max_try, pair: 1 }, k, false));
                     }
+                    if limits == 0 && layout <= 1 && max_try <= 4 && step > 0.1 {
+                        v.push((Scenario { layout, limits, step, max_try, pair: 2 }, k, false));
+                    }
                 }
             }
         }
@@ -388,7 +400,7 @@ pub fn run(ctx: &Ctx) -> Report {
         rep.machinery_errors.push("fewer than two distinct successful outcomes".into());
     }
     rep.traces_validated = rep.states;
-    rep.sample(|| json!({"scenario": {"layout": 1, "limits": 0, "step": 0.3, "max_try": 3}, "samples": [3, 0, 2], "alphabet": (0..5).map(|k| nums(&alphabet(k))).collect::<Vec<_>>()}));
+    rep.sample(|| json!({"scenario": {"layout": 1, "limits": 0, "step": 0.3, "max_try": 3}, "samples": [3, 0, 2], "alphabet": (0..5).map(|k| nums(&alphabet(&scs[0].0, k))).collect::<Vec<_>>()}));
     rep.rule = "layouts {free, pillar between start and goal, plates around the tool at the start} x limits {wide, window, wrapping on J4/J6, non-wrapping beyond +-pi} x step {0.05, 0.3, 2.5} x \
                 max_try 0..D; for each, the tree of sample sequences over the alphabet {goal, start, into the obstacle, around it, far corner, ...} is explored \
                 exhaustively: every execution's consumed positions beyond its prefix branch into every other alphabet member (defaults first); the real \
